@@ -178,6 +178,7 @@ def build_harness(res, features=(), profile='release', bin='oracle', extra_env=N
     res.extra.setdefault('cargo_build_s', []).append(round(dt, 1))
     if rc != 0:
         res.extra['cargo_error'] = out[-4000:]
+        res.cargo_full = out
         return None
     return os.path.join(tdir, 'release' if profile == 'release' else 'debug', bin)
 
